@@ -253,6 +253,8 @@ def case_line(c):
         return "FSIZE %s %s %s" % (c[1], c[2], c[3])
     if c[0] == "NOGETRANDOM":
         return "NOGETRANDOM %s %s" % (c[1], c[2])
+    if c[0] == "STDCLOSED":
+        return "STDCLOSED %s %s %s" % (c[1], c[2], c[3])
     return repr(c)
 
 
@@ -278,6 +280,9 @@ def parse_case(l):
     if f[0] == "NOGETRANDOM":
         g = f[1].split()
         return ("NOGETRANDOM", g[0], g[1])
+    if f[0] == "STDCLOSED":
+        g = f[1].split()
+        return ("STDCLOSED", g[0], g[1], g[2])
     raise ValueError("unknown case line " + l[:40])
 
 
@@ -393,6 +398,42 @@ def do_nogetrandom(rn, c):
         why = ("getrandom() unavailable (ENOSYS): two runs wrote the SAME %d-byte key %s...: the key is not derived from kernel entropy "
                "(the fall-back source was not read)" % (len(keys[0]), keys[0][:8].hex()))
     return {"runs": obs}, why, None
+
+
+def do_stdclosed(rn, c):
+    """mungekey started with standard descriptors CLOSED (a cron job or service manager may do that): the key file then gets a low
+    descriptor number; whatever mungekey reports while it works (here: the warnings about an unavailable getrandom()) must not
+    end up in the key"""
+    bits, which = int(c[1]), c[2]
+    d = rn.fresh()
+    p = os.path.join(d, "k")
+    e = dict(os.environ); e.update(SAN_ENV)
+    e.update({"C20_IKM": "00", "C20_SALT": "01020304", "C20_GETRANDOM_FAIL": "1", "C20_LOG": os.path.join(d, "log")})
+
+    def pre():
+        for ch in which:
+            try:
+                os.close(int(ch))
+            except OSError:
+                pass
+    args = [rn.mkw, "-k", p, "-b", str(bits)] + (["-v"] if c[3] == "v" else [])
+    try:
+        r = subprocess.run(args, env=e, preexec_fn=pre, timeout=60, stdin=subprocess.DEVNULL, stdout=subprocess.DEVNULL, stderr=subprocess.DEVNULL)
+        rc = r.returncode
+    except subprocess.TimeoutExpired:
+        rc = 124
+    s = snap(p)
+    shutil.rmtree(d, True)
+    n = (bits + 7) // 8
+    obs = {"rc": rc, "size": len(s[4]) if s and s[4] is not None else None, "mode": ("%o" % s[1]) if s else None,
+           "head": (s[4][:60].decode(errors="replace") if s and s[4] else None)}
+    why = None
+    if rc == 0 and (s is None or s[0] != "reg" or len(s[4]) != n):
+        why = ("mungekey started with descriptor(s) %s closed and getrandom() unavailable reports success but the key file holds %s bytes, "
+               "requested %d (it begins %r: a diagnostic was written into the key)" % (",".join(which), obs["size"], n, obs["head"]))
+    elif rc == 0 and s[1] & 0o077:
+        why = "key file mode %04o grants group/other permissions (descriptors %s closed)" % (s[1], which)
+    return obs, why, None
 
 
 def san_abort(rc, err):
@@ -677,7 +718,8 @@ def run(ctx):
     fsize = [("FSIZE", str(b), str(l), i) for (b, l) in ((256, 0), (256, 31), (256, 32), (1024, 100), (1024, 127), (1024, 128), (2000, 249),
                                                         (8192, 1), (8192, 1000), (8192, 1023), (8192, 1024), (4096, 511)) for i in ("0", "1")]
     nogr = [("NOGETRANDOM", str(b), "%08x" % sl) for b in (256, 1024, 8192) for sl in (0, 0x01020304)]
-    pcases = gen_bits(ctx) + gen_umask(ctx) + gen_exist(ctx) + gen_wrap(ctx) + fsize + nogr
+    stdc = [("STDCLOSED", str(b), w, v) for b in (256, 1024) for w in ("2", "12", "012", "0") for v in ("-", "v")]
+    pcases = gen_bits(ctx) + gen_umask(ctx) + gen_exist(ctx) + gen_wrap(ctx) + fsize + nogr + stdc
     kcases, kpairs = gen_keys(ctx)
     if ctx.replay:
         r = json.load(open(ctx.replay))
@@ -765,6 +807,8 @@ def run(ctx):
             return do_fsize(rn, c)
         if c[0] == "NOGETRANDOM":
             return do_nogetrandom(rn, c)
+        if c[0] == "STDCLOSED":
+            return do_stdclosed(rn, c)
         return do_wrap(rn, c, facts)
     if pcases:
         with ThreadPoolExecutor(8) as ex:
